@@ -13,9 +13,9 @@ for marker,order,desc in (('Default','le','little endian'),('BigEndian','be','bi
         open spec fn spec_enc(v: &{t}) -> Seq<u8> {{ {order}_seq{n}(*v as nat) }}
         open spec fn spec_dec(b: Seq<u8>) -> Option<({t}, int)> {{ if b.len() < {n} {{ None }} else {{ Some(({order}_val{n}(b.subrange(0, {n})) as {t}, {n})) }} }}
         open spec fn progresses() -> bool {{ true }}
-        //@ fn exp:zvt_builder | impl Encoding<{t}> for {marker} | encode | mod=encoding
+        //@ fn exp:zvt_builder | impl Encoding<{t}> for {marker} | encode | mod=encoding props=C17,C03
         //@ end
-        //@ fn exp:zvt_builder | impl Encoding<{t}> for {marker} | decode | mod=encoding props=C02
+        //@ fn exp:zvt_builder | impl Encoding<{t}> for {marker} | decode | mod=encoding props=C02,C17
         //@ end
         open spec fn self_delimiting() -> bool {{ true }}
         proof fn law_dec_bounds(b: Seq<u8>) {{}}
